@@ -10,7 +10,7 @@ PROPS["C08"] = {
     ],
 }
 PROPS["C09"] = {
-    "bounds": "histories of K<=3 (quick) / K<=5 (thorough) operations over {put(m), get, close+reopen}, messages of 0..2 symbolic bytes (records of 4..6 bytes against symbolic maxBytesPerFile in [1,40]: smaller than, equal to and larger than a segment), symbolic syncEvery in [1,100]; one concrete-length boundary run around the reader's 4096-byte buffer (a message of 4089..4092 bytes so that the next record's length prefix starts 3..0 bytes before the refill point, then two messages of 1..2 symbolic bytes, with and without close+reopen)",
+    "bounds": "histories of K<=3 (quick) / K<=5 (thorough) operations over {put(m), get, close+reopen}, messages of 0..2 symbolic bytes (records of 4..6 bytes against symbolic maxBytesPerFile in [1,40]: smaller than, equal to and larger than a segment), symbolic syncEvery in [1,100]; one concrete-length boundary run around the reader's 4096-byte buffer (a message of 4089..4092 bytes so that the next record's length prefix starts 3..0 bytes before the refill point, then two messages of 1..2 symbolic bytes, with and without close+reopen); 2..3 messages, a consumer goroutine receiving while Close runs, every interleaving with at most 2 (thorough 3) preemptions at lock / channel operations, then reopen and drain)",
     "outside": "messages longer than 2 bytes other than the boundary run, histories longer than K, the sync ticker, Empty()/Delete()",
     "assumptions": ["in-memory file-system model; the consumer observes the queue at quiescence (all goroutines blocked)"],
     "groups": [
@@ -22,6 +22,10 @@ PROPS["C09"] = {
             spec("C09/fifo/K=4", "VerifC09Fifo", {"ops": "xxxx"}, tier="thorough"),
             spec("C09/fifo/K=5", "VerifC09Fifo", {"ops": "xxxxx"}, tier="thorough")],
          "opts": {"thorough": {"budget_s": 7000}}},
+        # a consumer goroutine receiving while the queue is closed: the interleaving is a decision variable
+        {"pkg": "nsqd", "hdir": "nsqd", "native_optional": True, "specs": [
+            spec("C09/fifo/close-while-consuming/preemptions<=2", "VerifC09CloseWhileConsuming", {"preemptions": "2"}),
+            spec("C09/fifo/close-while-consuming/preemptions<=3", "VerifC09CloseWhileConsuming", {"preemptions": "3"}, tier="thorough")]},
     ],
 }
 HOOK_COMMITS.append("2afd1d6")
